@@ -491,9 +491,16 @@ class Nonconforming(Exception):
     pass
 
 
-def project(res: CaseResult, nactors: int, cas: bool = False, lease: bool = False) -> Tuple[List[Tuple[int, str]], Dict[str, int], List[str]]:
+def project(res: CaseResult, nactors: int, cas: bool = False, lease: bool = False,
+            faults: bool = False) -> Tuple[List[Tuple[int, str]], Dict[str, int], List[str]]:
     """Returns (events as (actor index, Gallina evkind text)), metadata-file name -> vid, notes).
-    Raises Nonconforming on a storage call the projection does not know."""
+    Raises Nonconforming on a storage call the projection does not know.
+
+    faults=True: the events of Model/FlipFault.v are produced as well (texts starting with "X"; every other text is an
+    evkind to be wrapped in XE): a pointer write that raised an injected request-level error (log annotation "s3_fault")
+    is `XFlipErr <applied>`, the lock release that follows it (commit()'s finally) is `XUnwind`; a request whose client gave
+    up while it was in flight stays in flight in the model (its sender's lock release is a lapse of its lease) until the
+    "Land" entry: `XFlipErr <applied>; XUnwind` there."""
     vids: Dict[str, int] = {res.initial["pointer"]: 0}
     events: List[Tuple[int, str]] = []
     notes: List[str] = []
@@ -502,8 +509,21 @@ def project(res: CaseResult, nactors: int, cas: bool = False, lease: bool = Fals
     lock_ev: Dict[str, int] = {}               # actor -> index into events of its latest ELockTry (moved to the flock when fine-grained)
     n_known = 0
     holder: Optional[str] = None
+    erring: Dict[str, bool] = {}               # actor -> its pointer write raised, the exception has not left commit() yet
+    inflight: Dict[str, Any] = {}              # actor -> its pointer write is in flight although its client gave up ("sent" | "released")
     for idx, e in enumerate(res.log):
         a = e["actor"]
+        if faults and e["op"] == "Land":
+            owner = str(e.get("for"))
+            if not inflight.get(owner):
+                raise Nonconforming(f"a request lands at log[{idx}] that nobody has in flight")
+            events.append((int(owner[1:]), "XFlipErr true" if e["result"] == "applied" else "XFlipErr false"))
+            if inflight[owner] == "released":
+                events.append((int(owner[1:]), "XUnwind"))
+            else:
+                erring[owner] = True            # it lands before its sender has left commit(): the release is still to come
+            inflight[owner] = False
+            continue
         if not a.startswith("A"):
             continue
         ai = int(a[1:])
@@ -566,13 +586,31 @@ def project(res: CaseResult, nactors: int, cas: bool = False, lease: bool = Fals
         elif op == "Fence":
             events.append((ai, f"EFence {'true' if result else 'false'}"))
         elif op in ("write_file", "write_file_cas") and pcs == "hint":
-            ok = result == "ok"
-            events.append((ai, f"EFlip {'true' if ok else 'false'}"))
+            flt = e.get("s3_fault") if faults else None
+            if flt == "inflight":
+                inflight[a] = "sent"
+            elif flt in ("before", "after"):
+                events.append((ai, "XFlipErr true" if flt == "after" else "XFlipErr false"))
+                erring[a] = True
+            else:
+                ok = result == "ok"
+                events.append((ai, f"EFlip {'true' if ok else 'false'}"))
         elif op == "LockRel":
             _close_validate(events, pending_validate, a, False)
-            if holder == a:
-                holder = None
-            events.append((ai, "ERelease"))
+            if erring.get(a):
+                erring[a] = False
+                if holder == a:
+                    holder = None
+                events.append((ai, "XUnwind"))
+            elif inflight.get(a):
+                inflight[a] = "released"
+                if lease and holder == a:
+                    holder = None
+                    events.append((ai, "ESteal"))
+            else:
+                if holder == a:
+                    holder = None
+                events.append((ai, "ERelease"))
         elif op in ("exists", "read_file", "open_file", "write_file", "delete_file", "DataW", "DataR", "Sleep",
                     "get_size", "get_modified_time", "list_files", "open_seekable"):
             if pcs.startswith("other:"):
